@@ -251,14 +251,16 @@ fn run(ctx: &mut Ctx) {
         }
         check_event(ctx, cal, &ev, &banks);
     });
-    // every (board, chip, pad channel) of the simulation map: 32 columns x 576 rows in blocks
-    let blocks = if thorough { 32 * 8 } else { 32 };
+    // every pad (32 columns x 576 rows, one column per case) under every calibration epoch: the simulation and real
+    // runs on either side of each documented change of a calibration file
+    let all_runs = [u32::MAX, 9500, 10418, 11500];
+    let blocks = 32 * all_runs.len() as u64 * if thorough { 4 } else { 1 };
     ctx.cases("all-pads", blocks, |ctx, i, rng| {
-        let run = if i % 2 == 0 { u32::MAX } else { 11500 };
+        let run = all_runs[((i / 32) % all_runs.len() as u64) as usize];
         get(run, &mut cache);
         let (cal, inv) = cache.get(&run).unwrap();
         let col = (i % 32) as usize;
-        let rows: Vec<usize> = if thorough { ((i / 32) as usize * 72..(i / 32) as usize * 72 + 72).collect() } else { (0..576).step_by(1 + rng.usize(3)).collect() };
+        let rows: Vec<usize> = (0..576).collect();
         let mut pads = BTreeMap::new();
         let pl = 130 + rng.usize(30);
         for r in rows {
